@@ -3,7 +3,7 @@
 # Prints "SUITE pass=<n> fail=<n>"; exit 0 iff no test failed and no package failed to build.
 dir=${1:-/repo}; shift
 export GOFLAGS=-mod=mod GOPROXY=off GOSUMDB=off GOTOOLCHAIN=local
-cd "$dir" && go test -mod=mod -json -vet=off -count=1 -timeout 25m "$@" ./... 2>&1 | python3 -c '
+cd "$dir" && timeout ${VERIF_SUITE_TIMEOUT:-600} go test -mod=mod -json -vet=off -count=1 -timeout 25m "$@" ./... 2>&1 | python3 -c '
 import sys, json
 p=f=0; bad=[]
 for l in sys.stdin:
